@@ -28,7 +28,7 @@ func init() {
 
 // setup configures a new Proxy middleware instance.
 func setup(c *casket.Controller) error {
-	upstreams, err := NewStaticUpstreams(c.Dispenser, httpserver.GetConfig(c).Host())
+	upstreams, err := parseStaticUpstreams(c.Dispenser, httpserver.GetConfig(c).Host())
 	if err != nil {
 		return err
 	}
@@ -36,8 +36,15 @@ func setup(c *casket.Controller) error {
 		return Proxy{Next: next, Upstreams: upstreams}
 	})
 
-	// Register shutdown handlers.
+	// Register startup and shutdown handlers: the health checks run
+	// while the instance does. They are not started here, because the
+	// configuration may still be rejected or is merely validated.
 	for _, upstream := range upstreams {
+		upstream := upstream.(*staticUpstream)
+		c.OnStartup(func() error {
+			upstream.startHealthChecks()
+			return nil
+		})
 		c.OnShutdown(upstream.Stop)
 	}
 
